@@ -30,5 +30,11 @@ CLAIMED = {
         design_ref="§4 C13",
         note="offset:continue after a negative offset unclaimed; tablerow cols<=0 outside the family; nesting depth 1 (parentloop not covered here)",
     ),
+    "C10": dict(
+        technique="TLA+ spec Lexer.tla (requirement as a function of the source vs the tokenizer's lstrip/rstrip mechanism) model-checked with TLC; every enumerated source rendered through the real engine",
+        text="TLC checks MechanismMeetsRequirement/Verbatim/RawVerbatim/CommentSilent on every source text-markup-text[-markup-text] with all hyphen combinations on every delimiter of output, assign, inline comment, liquid, shorthand comment, if, raw, comment and doc; each is rendered sync+async (with and without template_comments) and the output must equal Required(src); markup-like fragments are substituted for the opaque text atom",
+        design_ref="§4 C10, §3.3",
+        note="at most two markup constructs per source; hyphens inside raw's own delimiters are specified not to touch the body; quick samples 36k of the enumerated sources",
+    ),
 }
 NOT_APPLICABLE = {}
